@@ -33,6 +33,7 @@ CONSTANTS
   MaxClock,      \* bound on clock                    (state constraint)
   MaxHb,         \* bound on heartbeats               (state constraint, TrackHb only)
   TrackHb,       \* FALSE: heartbeats are abstracted away (frozen detector configs)
+  KeepPath,      \* TRUE: hist is the whole path (behaviour export); FALSE: only the last action (trace validation)
   DeadGrace,     \* dead_node_grace_period (ticks, even); the other detector constants are FdOps'
   PredKey, PredVal,  \* extra liveness predicate kv[PredKey] = PredVal visible; PredKey = "" -> none
   ConvRounds,    \* fair rounds granted for convergence (C01_Converges)
@@ -67,7 +68,10 @@ Init ==
   /\ panic = FALSE
   /\ hist = <<>>
 
-Step(a) == hist' = Append(hist, a)
+\* (trace validation keeps only the last action, preceded by a parity record so that two equal consecutive
+\*  actions still change hist -- LastAct and the action properties rely on hist' # hist)
+Parity(h) == IF Len(h) >= 1 /\ "par" \in DOMAIN h[1] THEN h[1].par ELSE 0
+Step(a) == hist' = IF KeepPath THEN Append(hist, a) ELSE <<[par |-> 1 - Parity(hist)], a>>
 
 -------------------------------------------------------------------------------
 \* Derived sets (failure_detector.rs:104-121, lib.rs:95)
